@@ -165,6 +165,7 @@ def build_unit(unit, scratch):
     out_lines = []
     b = Built()
     b.unit, b.regions, b.log, b.functions, b.origin = unit, [], [], [], []
+    b.stubs = []
     b.cfg = cfg
 
     cur_prelude = [None]
@@ -184,6 +185,18 @@ def build_unit(unit, scratch):
     for seg in segs:
         if seg[0] == "text":
             add(seg[1], ("vocab", unit))
+        elif seg[0] == "stub":
+            other = os.path.join(VERIF, "units", seg[1], "unit.rs")
+            try:
+                osegs = splice.parse_unit(splice.expand_includes(open(other, encoding="utf-8").read(), VERIF), other)
+            except (OSError, splice.SpliceError) as e:
+                raise UnitError("stub %s %s: %s" % (seg[1], seg[2], e))
+            hit = [x[1] for x in osegs if x[0] == "region" and x[1].label == seg[2]]
+            if len(hit) != 1:
+                raise UnitError("stub %s %s: region not found" % (seg[1], seg[2]))
+            add("// contract proved in unit `%s` on the real text of %s; ASSUMED here" % (seg[1], seg[2]), ("vocab", unit))
+            add(splice.stub_of(hit[0]), ("stub", "%s/%s" % (seg[1], seg[2])))
+            b.stubs.append("%s/%s" % (seg[1], seg[2]))
         elif seg[0] == "include":
             p = os.path.join(VERIF, seg[1])
             try:
